@@ -108,6 +108,7 @@ def is_grain(key):
 
 T_WINDOWS = [(-1.0, -1.0), (10.0, 41000.0), (10.0, 300.0), (300.0, 41000.0)]
 RT_TWOBODY, RT_CR, RT_PHOTON, RT_FREEZE, RT_THERM, RT_UNKNOWN = 100, 101, 102, 200, 201, 999
+RT_RECOMBINE, RT_ECAPTURE = 220, 221
 
 
 def gen_pool(rng, cfgname, size, uid0=0, gas_only=False):
@@ -137,7 +138,21 @@ def gen_pool(rng, cfgname, size, uid0=0, gas_only=False):
                 base["rtype"] = rng.choice([RT_TWOBODY, RT_UNKNOWN]) if base["pseudo"] is None else base["rtype"]
         if base is None:
             kind = rng.random()
-            if kind < 0.60 or not ice or gas_only:
+            grains_ok = not gas_only and "GR0" in alpha and "GR-" in alpha
+            ions = [s for s in gas if charge_of(s) > 0 and s[:-1] in gas]
+            if grains_ok and kind < 0.12:
+                # electron capture by / cation recombination on grains: two charge states of one grain group
+                if "E" in gas and (rng.random() < 0.5 or not ions):
+                    R, P, pseudo, rtype = ["E", "GR0"], ["GR-"], None, RT_ECAPTURE
+                elif ions:
+                    ion = rng.choice(ions)
+                    R, P, pseudo, rtype = [ion, "GR-"], [ion[:-1], "GR0"], None, RT_RECOMBINE
+                else:
+                    R, P, pseudo, rtype = ["GR-"], ["GR0"], None, RT_UNKNOWN
+                w = rng.choice(T_WINDOWS)
+                base = {"R": R, "P": P, "pseudo": pseudo, "rtype": rtype, "tmin": w[0], "tmax": w[1],
+                        "beta": 0.0, "gamma": 0.0}
+            elif kind < 0.60 or not ice or gas_only:
                 nr = rng.choice([1, 2, 2, 2, 3])
                 R = [rng.choice(gas) for _ in range(nr)]
                 P = [rng.choice(gas) for _ in range(rng.choice([1, 1, 2, 2, 3]))]
@@ -154,9 +169,10 @@ def gen_pool(rng, cfgname, size, uid0=0, gas_only=False):
             else:
                 i = rng.choice(ice)
                 R, P, pseudo, rtype = [i], [i[1:]], None, RT_THERM
-            w = rng.choice(T_WINDOWS)
-            base = {"R": R, "P": P, "pseudo": pseudo, "rtype": rtype, "tmin": w[0], "tmax": w[1],
-                    "beta": rng.choice([0.0, -0.5, 0.5]), "gamma": rng.choice([0.0, 10.0, 1.7])}
+            if base is None:
+                w = rng.choice(T_WINDOWS)
+                base = {"R": R, "P": P, "pseudo": pseudo, "rtype": rtype, "tmin": w[0], "tmax": w[1],
+                        "beta": rng.choice([0.0, -0.5, 0.5]), "gamma": rng.choice([0.0, 10.0, 1.7])}
         base = dict(base)
         base["uid"] = uid
         base["alpha"] = uid + 0.5
